@@ -344,11 +344,16 @@ def run(ctx):
     if ctx.tier == "quick":
         plan = [(4, "d1", "mixed", 8), (3, "d2_terms", "light", 8)]
     else:
-        plan = [(4, "d1", "full", 8), (3, "d2", "full", 8), (4, "d2_terms", "light", 32),
-                (5, "d1_noternary", "light", 8)]
+        # (D, family, paths, slices, layout set)
+        plan = [(4, "d1", "full", 8, "mid"),            # every path, 35 index variants
+                (4, "d1_noternary", "light", 4, "thorough"),  # every deletion subset x composition
+                (3, "d2", "mixed", 8, "thorough"),
+                (4, "d2_terms", "light", 32, "quick"),
+                (5, "d1_noternary", "light", 8, "mid")]
+    plan = [p if len(p) == 5 else p + ("quick",) for p in plan]
     nlay = 0
-    for D, family, pm, nsl in plan:
-        lays = layouts(D, ctx.tier if D <= 4 else "mid")
+    for D, family, pm, nsl, lset in plan:
+        lays = layouts(D, lset)
         nlay += len(lays)
         for lay in lays:
             for sl in range(nsl):
